@@ -694,7 +694,7 @@ var blockStarts = []func(*lineParser){
 		}
 		for i, conds := range htmlBlockConditions {
 			if conds.startCondition(line) {
-				if !conds.canInterruptParagraph && p.ContainerKind() == ParagraphKind {
+				if !conds.canInterruptParagraph && (p.ContainerKind() == ParagraphKind || p.TipKind() == ParagraphKind) {
 					return
 				}
 				p.OpenHTMLBlock(i)
